@@ -66,6 +66,15 @@ func configsBase(tier string) []xplore.Config {
 	for _, s := range [][]string{{"A!", "A"}, {"A", "A!", "A"}, {"A!", "B"}} {
 		out = append(out, xplore.Config{Name: fmt.Sprintf("requesters=%v (! = unknown dialer) rounds=2", s), Bound: bound, Data: cfgData{addrs: s, rounds: 2}})
 	}
+	// a requester going through a second REGISTERED dialer ("A@" = address A
+	// through dialer "tun"): whatever the manager keys its entries by, request
+	// and release have to agree on it - the statement's clauses (never closed
+	// while held, closed and forgotten on the last release) hold for every holder
+	for _, s := range [][]string{{"A@"}, {"A@", "A"}, {"A", "A@"}, {"A@", "A@"}, {"A@", "B"}, {"A", "A@", "A"}} {
+		for _, r := range []int{1, 2} {
+			out = append(out, xplore.Config{Name: fmt.Sprintf("requesters=%v (@ = through a second registered dialer) rounds=%d", s, r), Bound: bound - 1, Data: cfgData{addrs: s, rounds: r}})
+		}
+	}
 	// the health of a connection that is held is the holder's business: a
 	// connection that stops working while held stays the holders' connection
 	for _, s := range [][]string{{"A", "A"}, {"A", "A", "A"}, {"A", "A", "B"}} {
@@ -162,7 +171,7 @@ func (harness) Run(cfg xplore.Config, ch vrt.Chooser, trace bool) (xplore.Outcom
 			rec.conn = cc
 			return cc, nil
 		}
-		m, err := connection.NewManagerCustom(map[string]connection.Dial{connection.DEFAULT: dial})
+		m, err := connection.NewManagerCustom(map[string]connection.Dial{connection.DEFAULT: dial, "tun": dial})
 		if err != nil {
 			panic(err)
 		}
@@ -179,11 +188,13 @@ func (harness) Run(cfg xplore.Config, ch vrt.Chooser, trace bool) (xplore.Outcom
 		badDialer := map[string]bool{}
 		usesBad := make([]bool, len(d.addrs))
 		clean := make([]string, len(d.addrs)) // the configuration's slice is shared between executions
+		usesTun := make([]bool, len(d.addrs))
 		for i, a := range d.addrs {
-			clean[i] = strings.TrimSuffix(a, "!")
+			clean[i] = strings.TrimSuffix(strings.TrimSuffix(a, "!"), "@")
 			if usesBad[i] = strings.HasSuffix(a, "!"); usesBad[i] {
 				badDialer[clean[i]] = true
 			}
+			usesTun[i] = strings.HasSuffix(a, "@")
 		}
 		d.addrs = clean
 		held := make(chan struct{})    // closed once requester 0 holds its connection and it has broken
@@ -194,6 +205,9 @@ func (harness) Run(cfg xplore.Config, ch vrt.Chooser, trace bool) (xplore.Outcom
 			dialer := connection.DEFAULT
 			if usesBad[i] {
 				dialer = "no-such-dialer"
+			}
+			if usesTun[i] {
+				dialer = "tun"
 			}
 			if d.breaks {
 				vrt.GoNamed(fmt.Sprintf("req%d-%s", i, addr), func() {
